@@ -710,6 +710,7 @@ pub fn main(opts: &Opts) {
     report.count_n("corpus_values", corpus_values.len() as u64);
 
     long_bodies(&mut report, &prop);
+    deep_nesting_probes(&mut report, &prop);
 
     for k in 0..(n_values + corpus_values.len() as u64) {
         let v = if (k as usize) < corpus_values.len() { corpus_values[k as usize].clone() } else { gen_value(&mut rng, 4, true) };
@@ -782,6 +783,10 @@ pub fn main(opts: &Opts) {
                         report.finding(Finding { kind: "violation", key: format!("io-overread:{}", class), description: format!("io reader took {} bytes from the stream for a value of {} bytes (chunk {})", taken, tail.len().wrapping_sub(*rest), chunk), replay: json!({"property": prop, "module": "codec", "value": text, "bytes": hx(&tail)}) });
                     }
                 }
+            }
+            // LazyValue: the bytes of exactly this value, whatever follows (in-scope values whose value part is not itself described)
+            if oos.is_none() && lazy_in_scope(&v) {
+                lazy_checks(&enc, &tail, report_ptr(&mut report), &prop, &text);
             }
             // a stream may report a retryable interruption at any read call: the result must not change
             if tail.len() <= 48 {
@@ -942,6 +947,116 @@ pub fn main(opts: &Opts) {
     println!("codec: {} cases, {} non-trivial, {} findings", report.evaluations, report.nontrivial.len(), report.findings.len());
 }
 
+/// the child side of `deep_nesting_probes`: decodes the input in this process and exits 0 whatever the result is
+pub fn nesting_probe_child(kind: &str, n: usize) {
+    use serde_amqp::lazy::LazyValue;
+    let mut input: Vec<u8> = vec![];
+    match kind {
+        // a described value whose value is a described value whose value is …, ended by a null
+        "described" => {
+            for _ in 0..n {
+                input.extend_from_slice(&[0x00, 0x44]);
+            }
+            input.push(0x40);
+        }
+        // the same with the descriptor nested instead of the value
+        _ => {
+            for _ in 0..n {
+                input.push(0x00);
+            }
+            input.push(0x44);
+            for _ in 0..n {
+                input.push(0x40);
+            }
+        }
+    }
+    let a = serde_amqp::from_slice::<LazyValue>(&input).is_ok();
+    let b = serde_amqp::from_reader::<LazyValue>(std::io::Cursor::new(input.clone())).is_ok();
+    let c = {
+        let mut rd = serde_amqp::read::SliceReader::new(&input);
+        LazyValue::from_reader(&mut rd).is_ok()
+    };
+    let d = serde_amqp::from_slice::<Value>(&input).is_ok();
+    println!("nesting probe {} x {}: lazy slice {} / stream {} / from_reader {} / value {}", kind, n, a, b, c, d);
+    std::process::exit(0);
+}
+
+/// inputs nested far deeper than any stack allows are decoded in a child process: an overflowing stack
+/// kills the process (it cannot be caught), so the verdict is the child's exit status
+fn deep_nesting_probes(report: &mut Report, prop: &str) {
+    let exe = match std::env::current_exe() {
+        Ok(e) => e,
+        Err(_) => return,
+    };
+    for kind in ["described", "descriptor"] {
+        for n in [20_000usize, 600_000] {
+            report.evaluations += 1;
+            report.count("deep_nesting_probes");
+            let out = std::process::Command::new(&exe).arg("nesting-probe").arg(kind).arg(n.to_string()).output();
+            match out {
+                Ok(o) if o.status.success() => {}
+                Ok(o) => {
+                    let err = String::from_utf8_lossy(&o.stderr);
+                    report.finding(Finding { kind: "violation", key: "decode-stack-overflow:LazyValue".into(), description: format!("decoding {} levels of nested {} (2 bytes per level) as a LazyValue / Value ended the process: {:?}: {}", n, if kind == "described" { "described values" } else { "descriptors" }, o.status, err.lines().last().unwrap_or("")), replay: json!({"property": prop, "module": "codec", "nesting_probe": kind, "levels": n}) });
+                    break;
+                }
+                Err(e) => report.notes.push(format!("nesting probe could not be started: {}", e)),
+            }
+        }
+    }
+}
+
+fn report_ptr(r: &mut Report) -> &mut Report {
+    r
+}
+
+/// `LazyValue` takes primitives, compounds and a described value whose descriptor and value are not described
+fn lazy_in_scope(v: &Value) -> bool {
+    match v {
+        Value::Described(d) => !matches!(d.value, Value::Described(_)),
+        _ => true,
+    }
+}
+
+/// C20 / C03 for `LazyValue`: from a slice, through `LazyValue::from_reader` and from a stream it holds
+/// exactly the bytes of the first value, and writes them back unchanged
+fn lazy_checks(enc: &[u8], with_tail: &[u8], report: &mut Report, prop: &str, text: &str) {
+    use serde_amqp::lazy::LazyValue;
+    report.count("lazy_values");
+    let replay = json!({"property": prop, "module": "codec", "value": text, "bytes": hx(with_tail), "lazy": true});
+    let short = |b: &[u8]| if b.len() > 40 { format!("{}..({} bytes)", hx(&b[..40]), b.len()) } else { hx(b) };
+    match std::panic::catch_unwind(|| serde_amqp::from_slice::<LazyValue>(with_tail)) {
+        Ok(Ok(lv)) => {
+            if lv.as_slice() != enc {
+                report.finding(Finding { kind: "violation", key: "lazy:wrong-bytes".into(), description: format!("LazyValue from {} holds {} instead of the {} bytes of the first value", short(with_tail), short(lv.as_slice()), enc.len()), replay: replay.clone() });
+            }
+            match serde_amqp::to_vec(&lv) {
+                Ok(b) if b == enc => {}
+                r => report.finding(Finding { kind: "violation", key: "lazy:roundtrip".into(), description: format!("a LazyValue holding {} is written as {:?}", short(enc), r.map(|b| short(&b))), replay: replay.clone() }),
+            }
+        }
+        Ok(Err(e)) => report.finding(Finding { kind: "violation", key: "lazy:refused".into(), description: format!("from_slice::<LazyValue> refuses the encoding {} of {}: {:?}", short(enc), &text[..text.len().min(80)], e), replay: replay.clone() }),
+        Err(_) => report.finding(Finding { kind: "violation", key: "decode-panic:LazyValue".into(), description: format!("from_slice::<LazyValue>({}) panicked", short(with_tail)), replay: replay.clone() }),
+    }
+    {
+        let mut rd = serde_amqp::read::SliceReader::new(with_tail);
+        match LazyValue::from_reader(&mut rd) {
+            Ok(lv) if lv.as_slice() == enc => {}
+            r => report.finding(Finding { kind: "violation", key: "lazy:from-reader".into(), description: format!("LazyValue::from_reader over a slice reader gives {:?} for {}", r.map(|l| short(l.as_slice())), short(with_tail)), replay: replay.clone() }),
+        }
+    }
+    for chunk in [1usize, 7, 1 << 16] {
+        let src = Chunked { data: with_tail, pos: 0, chunk, interrupt_at: None, calls: 0 };
+        match serde_amqp::from_reader::<LazyValue>(src) {
+            Ok(lv) if lv.as_slice() == enc => {}
+            r => {
+                report.finding(Finding { kind: "violation", key: "lazy:io-vs-slice".into(), description: format!("from_reader::<LazyValue> (chunks of {}) gives {:?} where the slice gives the {} bytes of the value", chunk, r.map(|l| short(l.as_slice())), enc.len()), replay: replay.clone() });
+                break;
+            }
+        }
+    }
+}
+
 /// variable-width bodies around the 64 KiB pieces in which the readers take long bodies: round trip,
 /// size and slice = stream on the implementation (the model covers these lengths by the theorems;
 /// lines of this size are not sent to the driver)
@@ -1055,7 +1170,8 @@ fn typed_decoding(rng: &mut Rng, byte_strings: &[Vec<u8>], report: &mut Report, 
         }
         n += 1;
         report.evaluations += 1;
-        let targets: [(&str, Box<dyn Fn(&[u8]) -> bool>); 3] = [
+        let targets: [(&str, Box<dyn Fn(&[u8]) -> bool>); 4] = [
+            ("LazyValue", Box::new(|b: &[u8]| serde_amqp::from_slice::<serde_amqp::lazy::LazyValue>(b).is_ok())),
             ("Performative", Box::new(|b: &[u8]| serde_amqp::from_slice::<Performative>(b).is_ok())),
             ("DeliveryState", Box::new(|b: &[u8]| serde_amqp::from_slice::<DeliveryState>(b).is_ok())),
             ("Message", Box::new(|b: &[u8]| serde_amqp::from_slice::<Deserializable<Message<Body<serde_amqp::Value>>>>(b).is_ok())),
